@@ -412,7 +412,12 @@ def vmCall (w : World) (tx : Tx) (snd rcv : Copy) (isFD : Bool) (base : Nat) : E
   | some (rcv, pend) =>
     match tx.script.err with
     | .negfee => { snd, rcv, w, fee := base, err := some (.reject .system) }
-    | .system => { snd, rcv, w, fee := base + tx.script.fee, err := some (.reject .system) }
+    | .system =>
+      -- a system error / timeout *after* the script's transfers and writes (the stub makes them first);
+      -- a transfer the contract cannot cover is a VM error before that
+      match runXfers snd.id rcv.id snd.cur rcv.cur w false tx.script.xfers with
+      | .fail dirty => { snd, rcv, w, fee := base + tx.script.fee, err := some .runtime, dirty }
+      | .ok _ _ _ _ => { snd, rcv, w, fee := base + tx.script.fee, err := some (.reject .system) }
     | .vm => { snd, rcv, w, fee := base + tx.script.fee, err := some .runtime }
     | .ok =>
       match runXfers snd.id rcv.id snd.cur rcv.cur w false tx.script.xfers with
